@@ -93,7 +93,8 @@ func muxPayload(kind string, seq int) []byte {
 }
 
 type muxCfg struct {
-	Depth int `json:"depth"`
+	Depth       int `json:"depth"`
+	WriteBuffer int `json:"write_buffer,omitempty"`
 }
 
 // muxRef is the reference routing table. Connections are named by generation numbers.
